@@ -192,6 +192,13 @@ def check_case(ctx, out, desc, fn, keep_ids, arg):
         ref_net = base
     else:
         ref_net = net
+    try:
+        from CircuitCalculator.Network.NodalAnalysis import node_analysis as na
+        conds = [np.linalg.cond(na.nodal_analysis_coefficient_matrix(x)) for x in (ref_net, res) if len(x.branches) > 0]
+        if conds and max(conds) > 1e8:
+            out.skip('ill_conditioned'); return
+    except Exception:
+        pass
     so = exact_solution(drv, gen_net.impl_to_json(ref_net))
     sr = exact_solution(drv, gen_net.impl_to_json(res))
     if so is None or sr is None:
